@@ -244,7 +244,8 @@ def run_history(prep, ops, fail, count=lambda k: None):
     case = prep.case
     reg = CollectorRegistry(auto_describe=prep.ad, target_info=copy.copy(case['ti']))
     obs = []
-    tainted = False   # after an F6 event the registry is corrupt by the known finding; the oracle stops, T2 goes on
+    tainted = False   # after an F6-class event (fixed in /repo; reported as a violation) the registry is corrupt: the oracle
+                      # stops for this history so that the consequences are not reported under other signatures; T2 goes on
     before = snapshot(prep, reg)
     for step, op in enumerate(ops):
         registered = before[1]                      # ids whose collect() the registry invokes, in order
@@ -420,7 +421,7 @@ def reduced_alphabet():
         custom(5, [('target_info', 'gauge')]),
         custom(6, [('x', 'histogram')], describe=None),
         custom(7, [('x_sum', 'summary')]),
-        custom(8, [('x', 'counter'), ('x_total', 'gauge')]),     # F6: claims x_total twice
+        custom(8, [('x', 'counter'), ('x_total', 'gauge')]),     # claims x_total twice (former F6)
     ]
     ops = []
     for c in cs:
@@ -453,7 +454,7 @@ def random_collector(rng, cid, allow_dup=False):
         else:   # describe() disagrees with collect()
             c = custom(cid, fams, describe=[(rng.choice(ALPHABET), rng.choice(TYPES))])
         cl = claims_of(c['describe'] if c['describe'] is not None else fams)
-        if len(set(cl)) == len(cl) or allow_dup or rng.random() < 0.1:
+        if len(set(cl)) == len(cl) or allow_dup or rng.random() < 0.5:
             return c
     return c
 
@@ -482,7 +483,7 @@ def random_case(rng, length):
 
 
 CORPUS = [
-    # F6 witness, then a collector that now double-claims x
+    # former F6 witness: must unregister cleanly, after which a collector claiming x registers
     {'ad': False, 'ti': None, 'collectors': [custom(1, [('x', 'counter'), ('x_total', 'gauge')]), custom(2, [('x', 'gauge')])],
      'ops': [['r', 1], ['u', 1], ['r', 2]]},
     # failed register, unregister, target info interleaved (the shape no test has)
